@@ -134,6 +134,9 @@ func (obj *SparseReal32Vector) SET(x *SparseReal32Vector) {
   }
 }
 func (obj *SparseReal32Vector) SLICE(i, j int) *SparseReal32Vector {
+  if i < 0 || i > j || j > obj.n {
+    panic("slice bounds out of range")
+  }
   r := nilSparseReal32Vector(j-i)
   for it := obj.indexIteratorFrom(i); it.Ok(); it.Next() {
     if it.Get() >= j {
@@ -221,6 +224,9 @@ func (obj *SparseReal32Vector) Slice(i, j int) Vector {
   return obj.SLICE(i, j)
 }
 func (obj *SparseReal32Vector) Swap(i, j int) {
+  if i < 0 || i >= obj.n || j < 0 || j >= obj.n {
+    panic("index out of bounds")
+  }
   vi, oki := obj.values[i]
   vj, okj := obj.values[j]
   switch {
